@@ -111,8 +111,27 @@ def check_domain(p, folder, fn: FuncInfo, var: str, env=None, depth=0) -> Domain
                                 ok = False
                                 break
                             sub_env[params[i]] = v
-                    if call.keywords:
-                        ok = False
+                    for kw in call.keywords:
+                        if kw.arg is None or kw.arg not in params:
+                            ok = False
+                            break
+                        if isinstance(kw.value, ast.Name) and kw.value.id == var:
+                            sub_var = kw.arg
+                        else:
+                            v = folder.try_eval(kw.value, env, fn.module)
+                            if v is UNKNOWN:
+                                ok = False
+                                break
+                            sub_env[kw.arg] = v
+                    if ok:
+                        # parameters not given take their defaults
+                        a_ = callee.node.args
+                        pos = a_.posonlyargs + a_.args
+                        for pi, d in zip(pos[len(pos) - len(a_.defaults):], a_.defaults):
+                            if pi.arg not in sub_env and pi.arg != sub_var:
+                                v = folder.try_eval(d, {}, callee.module)
+                                if v is not UNKNOWN:
+                                    sub_env[pi.arg] = v
                     if ok and sub_var is not None:
                         sub = check_domain(p, folder, callee, sub_var, sub_env, depth + 1)
                         for exc, s in sub.rejected.items():
